@@ -330,8 +330,11 @@ class IntegralGenerator:
                 continue
             v = attr["expression"]
 
-            # Generate code only if the expression is not already in cache
-            if not self.get_var(quadrature_rule, domain, v):
+            # Generate code only if the expression is not already in the scope
+            # of this partition. The shared piecewise scope must not be
+            # consulted here: what is piecewise for one quadrature rule (e.g. a
+            # one-point rule) can vary for another rule of the same integral
+            if not v._ufl_is_literal_ and self.scopes[(domain, quadrature_rule)].get(v) is None:
                 if v._ufl_is_literal_:
                     vaccess = L.ufl_to_lnodes(v)
                 elif mt := attr.get("mt"):
